@@ -32,6 +32,7 @@ func rulesC09(c *Ctx) {
 	ruleDoModifyPrecondition(c)
 	ruleSessionFootprint(c)
 	ruleFatalEndsSession(c)
+	ruleNewSessionDefaults(c)
 	ruleElectionWriters(c) // a session leaving (or any handler but runElection) never alters the election state
 }
 
@@ -152,7 +153,8 @@ func ruleDispatchTable(c *Ctx) {
 			}
 			q.Events = append(q.Events, Event{Kind: k, Node: e.Node})
 		}
-		return defaultOutcome(info, fi.Decl, q)
+		// in a loop body `continue` and falling off the end are the same outcome: the next iteration
+		return strings.Replace(defaultOutcome(info, fi.Decl, q), "end:continue", "end:fall", 1)
 	}
 	runTable(c, tableSpec{
 		Rule: "TABLE-DISPATCH", Fn: fi, Body: loop.Body.List, Construct: "Modify receive loop: dispatch and termination",
@@ -539,6 +541,24 @@ func ruleDoModifyPrecondition(c *Ctx) {
 	}
 	cs := "call:getClientState#1.0"
 	aOK := "b:call:getClientState#1.1"
+	// the lookup written out in place (`cs, ok := s.cs[cid]` under the session lock) names the two locals itself
+	cidObj := paramObjs(info, fi.Decl)[0]
+	for _, st := range pre {
+		as, isAs := st.(*ast.AssignStmt)
+		if !isAs || len(as.Lhs) != 2 || len(as.Rhs) != 1 {
+			continue
+		}
+		ie, isIdx := ast.Unparen(as.Rhs[0]).(*ast.IndexExpr)
+		if !isIdx || objOfIdent(info, ie.Index) != cidObj {
+			continue
+		}
+		if fv, _ := selectorPath(info, ie.X); fv == nil || !strings.HasSuffix(types.ExprString(ie.X), ".cs") {
+			continue
+		}
+		if a, b := identOf(as.Lhs[0]), identOf(as.Lhs[1]); a != nil && b != nil {
+			cs, aOK = varKey(info.ObjectOf(a)), "b:"+varKey(info.ObjectOf(b))
+		}
+	}
 	aPN := eqAtom(cs+".params", "nil")
 	aEx := "b:" + cs + ".params.ExpectElecID"
 	aPe := "b:" + cs + ".params.Persist"
@@ -751,4 +771,69 @@ func ruleFatalEndsSession(c *Ctx) {
 	}
 	c.check(bad == "", rule, fi.Name, "a fatal error is the last effect and is reported to the caller", c.P.pos(fi.Decl.Pos()),
 		fmt.Sprintf("%d paths, %d of them fatal: errCh←… is followed by return false at once; all others return true", len(paths), nFatal), bad)
+}
+
+// NEW-SESSION-DEFAULTS — a session that has just connected has negotiated nothing: newClient stores a
+// client state whose every field is its zero value (params: the empty clientParams, not set, no election
+// id). State copied from another session would let a session that never sent SessionParameters count as
+// SINGLE_PRIMARY/PRESERVE: its election id is accepted and can take the primary role, and its operations
+// are processed, instead of ending the RPC with the specified status.
+func ruleNewSessionDefaults(c *Ctx) {
+	const rule = "NEW-SESSION-DEFAULTS"
+	fi := c.need("server", "Server", "newClient")
+	if fi == nil {
+		return
+	}
+	info := fi.Pkg.TypesInfo
+	id := paramObjs(info, fi.Decl)[0]
+	n := 0
+	bad := ""
+	var zero func(e ast.Expr, depth int) bool
+	zero = func(e ast.Expr, depth int) bool {
+		e = ast.Unparen(resolveLocal(info, fi.Decl, e))
+		if isNilIdent(info, e) {
+			return true
+		}
+		if b, isB := boolConst(info, e); isB {
+			return !b
+		}
+		if tv, ok := info.Types[e]; ok && tv.Value != nil {
+			s := tv.Value.ExactString()
+			return s == "0" || s == `""` || s == "false"
+		}
+		if cl, ok := unAddr(e).(*ast.CompositeLit); ok && depth < 3 {
+			for _, el := range cl.Elts {
+				kv, ok := el.(*ast.KeyValueExpr)
+				if !ok || !zero(kv.Value, depth+1) {
+					return false
+				}
+			}
+			return true
+		}
+		return false
+	}
+	ast.Inspect(fi.Decl.Body, func(m ast.Node) bool {
+		as, ok := m.(*ast.AssignStmt)
+		if !ok || len(as.Lhs) != 1 || len(as.Rhs) != 1 {
+			return true
+		}
+		ie, ok := ast.Unparen(as.Lhs[0]).(*ast.IndexExpr)
+		if !ok || objOfIdent(info, ie.Index) != id {
+			return true
+		}
+		if se, ok := ast.Unparen(ie.X).(*ast.SelectorExpr); !ok || se.Sel.Name != "cs" {
+			return true
+		}
+		n++
+		if !zero(as.Rhs[0], 0) {
+			bad = "the state stored for a new session (" + types.ExprString(as.Rhs[0]) + ") is not the all-defaults state: a session that has negotiated nothing would start with parameters (or an election id) it never sent"
+		}
+		return true
+	})
+	c.Sites += n
+	if n == 0 {
+		c.vanished(rule, fi.Name, "store", "newClient does not store a client state under the session id")
+		return
+	}
+	c.check(bad == "", rule, fi.Name, "a new session starts with nothing negotiated", c.P.pos(fi.Decl.Pos()), "s.cs[id] = &clientState{params: &clientParams{}} — every field zero", bad)
 }
